@@ -149,9 +149,14 @@ func init() {
 		nonce := keyOf(req)
 		fresh := b2i(string(nonce) != lastNonce)
 		lastNonce = string(nonce)
-		return fmt.Sprintf("%s proto=%s exts=%s req=%s rest=%s nonce=%s uri=%s uhost=%s fresh=%d brnil=%d",
+		// the same Dialer value used again: its configuration must be what it was (the next request offers the same)
+		conn2 := &dlConn{resp: nil, k: 0, fin: "E"}
+		d.Upgrade(conn2, u)
+		req2 := conn2.w.Bytes()
+		again := b2i(bytes.Equal(bytes.Replace(req, nonce, nil, 1), bytes.Replace(req2, keyOf(req2), nil, 1)))
+		return fmt.Sprintf("%s proto=%s exts=%s req=%s rest=%s nonce=%s uri=%s uhost=%s fresh=%d brnil=%d again=%d",
 			hsErrClass2(err), hx([]byte(hs.Protocol)), optsStr(hs.Extensions), hx(req), rest, hx(nonce),
-			hx([]byte(u.RequestURI())), hx([]byte(u.Host)), fresh, b2i(br == nil))
+			hx([]byte(u.RequestURI())), hx([]byte(u.Host)), fresh, b2i(br == nil), again)
 	}
 	ops["dial"] = func(a []string) string {
 		raw := string(unhx(a[0]))
@@ -234,6 +239,7 @@ func init() {
 		return fmt.Sprintf("%s addr=%s sni=%s cfgafter=%s uhost=%s", b2s(err != nil), addr, sni, after, uhost)
 	}
 	register("C10", genC10)
+	register("C19", genDialTLS)
 }
 
 func b2s(b bool) string {
@@ -421,8 +427,13 @@ func genC10(tier string, r *rng) {
 		"WS://example.com/x", "ws:///x", "ws://127.0.0.1/x", "wss://127.0.0.1:1/x"} {
 		run("dial " + hx([]byte(u)))
 	}
-	// the TLS session of a wss URL is for that URL's host, whatever was dialed before (default configuration,
-	// a configuration without a name, a configuration with one)
+	genDialTLS(tier, r)
+}
+
+// genDialTLS: the TLS session of a wss URL is for that URL's host, whatever was dialed before (default
+// configuration, a configuration without a name, a configuration with one). Registered for C10 (address
+// derivation) and C19 (sessions to different hosts through the shared default configuration).
+func genDialTLS(tier string, r *rng) {
 	hosts := []string{"first.example", "second.example:8443", "third.example", "first.example", "a.b.c.example:1", "second.example"}
 	for _, mode := range []string{"nil", "empty", "named:" + hx([]byte("pinned.example")), "nil"} {
 		for _, h := range hosts {
